@@ -221,6 +221,15 @@ func (p *ParagraphReader) Next() (*Paragraph, error) {
 		 */
 
 		if strings.HasPrefix(line, " ") || strings.HasPrefix(line, "\t") {
+			if len(paragraph.Order) == 0 {
+				/* Nothing to continue. Blank-only lines may separate
+				 * paragraphs; anything else is garbage. */
+				if strings.TrimSpace(line) == "" {
+					continue
+				}
+				return nil, fmt.Errorf("Bad line: '%s' continues no field", line)
+			}
+
 			/* This is a continuation line; so we're going to go ahead and
 			 * clean it up, and throw it into the list. We're going to remove
 			 * the first character (which we now know is whitespace), and if
@@ -259,6 +268,9 @@ func (p *ParagraphReader) Next() (*Paragraph, error) {
 		lastKey = strings.TrimSpace(els[0])
 		value := strings.TrimSpace(els[1])
 
+		if _, found := paragraph.Values[lastKey]; found {
+			return nil, fmt.Errorf("Bad line: field '%s' appears twice", lastKey)
+		}
 		paragraph.Order = append(paragraph.Order, lastKey)
 		paragraph.Values[lastKey] = value
 	}
